@@ -289,7 +289,13 @@ pub fn run_check<K: Check>(k: &K, tier: Tier, runs_override: Option<u64>) -> i32
                     }
                     let (s, ss) = run_seed(seed, k.num(), i);
                     *cur.lock().unwrap() = Some((i, Instant::now()));
-                    let case = k.gen(s, ss, tier);
+                    let case = match catch_unwind(AssertUnwindSafe(|| k.gen(s, ss, tier))) {
+                        Ok(c) => c,
+                        Err(_) => {
+                            *harness_err.lock().unwrap() = Some(format!("run {}: panic inside the case generator", i));
+                            break;
+                        }
+                    };
                     let r = exec_guarded(k, &case, &mut st);
                     *cur.lock().unwrap() = None;
                     evals += 1;
